@@ -260,7 +260,7 @@ def split_offset(C, e, at):
     return None
 
 
-def check_offset(C, out, fn, acc, kname, use_stmt, dvloop, kloop, what, keyp):
+def check_offset(C, out, fn, acc, kname, use_stmt, dvloop, kloop, what, keyp, size=None):
     """Offset discipline of accumulator `acc` used (as `acc` or `acc + k`) in use_stmt.
 
     Returns True if everything is right (nothing reported), False if something was reported.
@@ -337,11 +337,16 @@ def check_offset(C, out, fn, acc, kname, use_stmt, dvloop, kloop, what, keyp):
                 return False
         return True
     # style B: acc + k, one step of <size> per design variable, after the element loop
-    if kloop is None:
+    if kloop is None and size is None:
         out.unsure(fn, use_stmt, f'{what}: `{acc} + {kname}` used outside an element loop')
         return False
-    kh = C.at(kloop)
-    kbody = set(g.body_nodes(kloop))
+    if kloop is not None:
+        kh = C.at(kloop)
+        kbody = set(g.body_nodes(kloop))
+        size = kloop.iter.args[0]
+    else:
+        kh = use
+        kbody = set()
     if not incs:
         out.bad(fn, use_stmt, f'{what}: the offset `{acc}` never advances: every design variable uses the '
                 'rows/columns of the first one', key=f'{keyp}-offset-step')
@@ -351,7 +356,6 @@ def check_offset(C, out, fn, acc, kname, use_stmt, dvloop, kloop, what, keyp):
         out.bad(fn, inside[0].ast, f'{what}: `{acc}` advances inside the element loop although the index already '
                 f'is `{acc} + {kname}`: rows are skipped', key=f'{keyp}-offset-step')
         return False
-    size = kloop.iter.args[0]
     for n in incs:
         sv = same_value(C, n.ast.value, n, size, kh)
         if sv is False or (sv is None and isinstance(n.ast.value, ast.Constant)):
@@ -359,6 +363,13 @@ def check_offset(C, out, fn, acc, kname, use_stmt, dvloop, kloop, what, keyp):
                     f'the variable occupies `{astx.src(size)}` rows/columns: correct only for variables of that '
                     'size, array variables overlap with their successors', key=f'{keyp}-offset-step')
             return False
+        if sv is None and isinstance(n.ast.value, ast.Name) and isinstance(size, ast.Name):
+            ds_step, ds_size = C.rd.defs(n, n.ast.value.id), C.rd.defs(kh, size.id)
+            if ds_step and ds_size and not (ds_step & body) and ds_size <= body:
+                out.bad(fn, n.ast, f'{what}: the offset advances by `{n.ast.value.id}`, which is not recomputed for '
+                        f'the current design variable, while the variable occupies `{size.id}` rows/columns: '
+                        'variables of different sizes overlap or leave gaps', key=f'{keyp}-offset-step')
+                return False
         if sv is None:
             out.unsure(fn, n.ast, f'{what}: cannot relate step `{astx.src(n.ast.value)}` to the element count '
                        f'`{astx.src(size)}`')
@@ -528,6 +539,8 @@ def table(repo, out):
         # level count
         def level_role(e, at_):
             if isinstance(e, ast.Name):
+                if not C.rd.defs(at_, e.id):
+                    return ('global', e.id), e     # module constant such as _LEVELS
                 v = C.rd.value(at_, e.id)
                 if v is None:
                     return None, e
@@ -662,6 +675,12 @@ def index(repo, out):
                 continue
             if tgt.slice.id != kv:
                 out.bad(P.fn, st, f'the value of element `{kv}` is stored at `{astx.src(tgt)}`', key='index-store')
+                continue
+            if not isinstance(tgt.value, ast.Name):
+                out.unsure(P.fn, st, 'element value is not stored into a local array')
+                continue
+            if not emit_check(C, out, P.fn, tgt.value.id, dvloop, caseloop, dvloop.target.elts[0].id, 'index',
+                              'case assembly'):
                 continue
             out.ok(P.fn, st, f'{astx.src(tgt)} = {P.V}[{astx.src(off_e)}][design[{astx.src(off_e)}]]; offset `{acc}` '
                    'advances by the variable size and is reset for every case')
@@ -977,3 +996,1140 @@ def design(repo, out):
                     'middle level', key='design-coding')
         else:
             out.ok(fn, fn.node, f'{attr[1:]} codes {mp} cover the level indices 0..{nlev - 1} (levels={nlev})')
+
+
+# =========================================================================== emit (shared)
+def emit_check(C, out, fn, val_name, dvloop, caseloop, key_var, keyp, what):
+    """The per-variable value is appended once per variable; the case is emitted once per design row."""
+    g = C.g
+    dvh = C.at(dvloop)
+    dbody = set(g.body_nodes(dvloop))
+    apps = []
+    for n in dbody:
+        if n.kind != 'stmt':
+            continue
+        for c in n.calls():
+            if astx.callee_attr(c) == 'append' and isinstance(astx.receiver(c), ast.Name) and len(c.args) == 1 and \
+                    val_name in astx.names(c.args[0]):
+                apps.append((n, c))
+    if not apps:
+        out.unsure(fn, dvloop, f'{what}: no `<case>.append(...{val_name}...)` in the design-variable loop')
+        return False
+    recv = {astx.receiver(c).id for n, c in apps}
+    if len(recv) != 1:
+        out.unsure(fn, dvloop, f'{what}: value appended to several lists {sorted(recv)}')
+        return False
+    R = recv.pop()
+    for n, c in apps:
+        a = c.args[0]
+        if isinstance(a, ast.Tuple):
+            if not (len(a.elts) == 2 and isinstance(a.elts[0], ast.Name) and isinstance(a.elts[1], ast.Name)):
+                out.unsure(fn, n.ast, f'{what}: appended pair not recognised')
+                return False
+            if a.elts[1].id != val_name or a.elts[0].id != key_var:
+                out.bad(fn, n.ast, f'{what}: the case entry is `{astx.src(a)}`, expected ({key_var}, {val_name}): the '
+                        'value is attached to the wrong name', key=f'{keyp}-emit-pair')
+                return False
+        elif not (isinstance(a, ast.Name) and a.id == val_name):
+            out.unsure(fn, n.ast, f'{what}: appended value not recognised')
+            return False
+    anodes = [n for n, c in apps]
+    entry = [m for m, lab in g.succ[dvh] if lab == 'true']
+    w = g.path(entry, [dvh], avoid=anodes, labels=cfgm.noexc)
+    if w is not None:
+        out.bad(fn, anodes[0].ast, f'{what}: a design variable can be left out of the case: ' + g.fmt_path(w),
+                key=f'{keyp}-emit-var')
+        return False
+    for n in anodes:
+        if set(anodes) & g.reach(g.normal_succ(n), avoid=[dvh], labels=cfgm.noexc):
+            out.bad(fn, n.ast, f'{what}: a design variable can be appended twice to one case', key=f'{keyp}-emit-var')
+            return False
+    if caseloop is None:
+        return True
+    ch = C.at(caseloop)
+    cbody = set(g.body_nodes(caseloop))
+
+    def emits(n):
+        if n.kind != 'stmt':
+            return False
+        for w_ in astx.walk(n.ast):
+            if isinstance(w_, ast.Yield) and isinstance(w_.value, ast.Name) and w_.value.id == R:
+                return True
+            if isinstance(w_, ast.Call) and astx.callee_attr(w_) == 'append' and len(w_.args) == 1 and \
+                    isinstance(w_.args[0], ast.Name) and w_.args[0].id == R:
+                return True
+        return False
+    ems = [n for n in cbody if emits(n)]
+    inner = [n for n in ems if n in dbody]
+    if inner:
+        out.bad(fn, inner[0].ast, f'{what}: the case `{R}` is emitted inside the design-variable loop, i.e. once per '
+                'variable with a partial list: the number of cases is no longer the number of design rows and the '
+                'model is run with only some variables set', key=f'{keyp}-emit-case')
+        return False
+    if not ems:
+        late = [n for n in g.nodes if n not in cbody and emits(n)]
+        if late:
+            out.bad(fn, late[0].ast, f'{what}: the case `{R}` is emitted after the loop over the design rows: only the '
+                    'last row becomes a case', key=f'{keyp}-emit-case')
+        else:
+            out.unsure(fn, caseloop, f'{what}: no `yield {R}` / `.append({R})` per design row found')
+        return False
+    entry = [m for m, lab in g.succ[ch] if lab == 'true']
+    w = g.path(entry, [ch], avoid=ems, labels=cfgm.noexc)
+    if w is not None:
+        out.bad(fn, ems[0].ast, f'{what}: a design row can be skipped without emitting its case: ' + g.fmt_path(w),
+                key=f'{keyp}-emit-case')
+        return False
+    # the case list is fresh for every row
+    ext = set()
+    for e in ems:
+        ext |= C.rd.defs(e, R)
+    stale = [d for d in ext if d not in cbody]
+    if stale:
+        out.bad(fn, stale[0].ast, f'{what}: the list `{R}` is created outside the loop over the design rows: every '
+                'emitted case is the same growing list holding the entries of all previous rows',
+                key=f'{keyp}-emit-case')
+        return False
+    return True
+
+
+# =========================================================================== Latin hypercube
+class _NoPoly(Exception):
+    pass
+
+
+def _padd(a, b, sign=1):
+    r = dict(a)
+    for k, v in b.items():
+        r[k] = r.get(k, 0) + sign * v
+        if r[k] == 0:
+            del r[k]
+    return r
+
+
+def _pmul(a, b):
+    r = {}
+    for k1, v1 in a.items():
+        for k2, v2 in b.items():
+            k = tuple(sorted(k1 + k2))
+            r[k] = r.get(k, 0) + v1 * v2
+            if r[k] == 0:
+                del r[k]
+    return r
+
+
+def poly(e, at, C, B, sample_of, depth=0):
+    """Polynomial over the symbols L, U (bounds of the variable) and s (its slice of the design row)."""
+    if depth > 12:
+        raise _NoPoly('too deep')
+    if isinstance(e, ast.Constant) and isinstance(e.value, (int, float)) and not isinstance(e.value, bool):
+        return {(): Fraction(e.value)} if e.value != 0 else {}
+    if isinstance(e, ast.UnaryOp) and isinstance(e.op, ast.USub):
+        return _padd({}, poly(e.operand, at, C, B, sample_of, depth + 1), -1)
+    if isinstance(e, ast.BinOp):
+        if isinstance(e.op, (ast.Add, ast.Sub, ast.Mult)):
+            # broadcast helper `x * np.ones(n)` is the identity
+            if isinstance(e.op, ast.Mult):
+                for a, b in ((e.left, e.right), (e.right, e.left)):
+                    if np_call(b, 'ones', 'ones_like'):
+                        return poly(a, at, C, B, sample_of, depth + 1)
+            a = poly(e.left, at, C, B, sample_of, depth + 1)
+            b = poly(e.right, at, C, B, sample_of, depth + 1)
+            if isinstance(e.op, ast.Add):
+                return _padd(a, b)
+            if isinstance(e.op, ast.Sub):
+                return _padd(a, b, -1)
+            return _pmul(a, b)
+        if isinstance(e.op, ast.Div):
+            b = poly(e.right, at, C, B, sample_of, depth + 1)
+            if set(b) == {()}:
+                return _pmul(poly(e.left, at, C, B, sample_of, depth + 1), {(): 1 / b[()]})
+        raise _NoPoly(astx.src(e))
+    smp = sample_of(e, at)
+    if smp:
+        return {('s',): Fraction(1)}
+    r = B.resolve(e, at)
+    if r and r != CARRIED and r[0] == 'B' and r[1] in ('lower', 'upper') and r[2] is None:
+        return {('L' if r[1] == 'lower' else 'U',): Fraction(1)}
+    if isinstance(e, ast.Name):
+        v = C.rd.value(at, e.id)
+        if v is not None:
+            return poly(v, next(iter(C.rd.defs(at, e.id))), C, B, sample_of, depth + 1)
+    raise _NoPoly(astx.src(e))
+
+
+def _pfmt(p):
+    if not p:
+        return '0'
+    return ' + '.join(f"{v}*{'*'.join(k) or '1'}" for k, v in sorted(p.items()))
+
+
+LHS_WANT = {('L',): Fraction(1), ('U', 's'): Fraction(1), ('L', 's'): Fraction(-1)}
+LHS = [(DG, 'LatinHypercubeGenerator'), (SP, 'LatinHypercubeGenerator')]
+
+
+def lhs_parts(repo, rel, cls):
+    """(function with the pydoe call, call node, function with the mapping loops, row loop, dv loop)."""
+    m = repo.module(rel)
+    callf = mapf = None
+    for qn, f in m.funcs.items():
+        if not qn.startswith(cls + '.'):
+            continue
+        for c in astx.calls(f.node):
+            if astx.path(c.func) == 'self._lhs':
+                callf = (f, c)
+        for st in astx.walk_stmts(f.node.body):
+            if is_items_loop(st):
+                outer = [a for a in astx.ancestors(st) if isinstance(a, ast.For)]
+                inner_fn = astx.enclosing(st, (ast.FunctionDef,))
+                if outer and inner_fn is f.node:
+                    mapf = (f, outer[0], st)
+    if callf is None or mapf is None:
+        raise AnalysisError(f'{rel}:{cls}: pydoe lhs call or mapping loop not found')
+    return callf, mapf
+
+
+@rule('C23.lhs', floor=2)
+def lhs(repo, out):
+    """Latin hypercube: value == lower + s*(upper - lower) as a polynomial, s = own columns of the design row, one case per row."""
+    for rel, cls in LHS:
+        (cf, call), (mf, rowloop, dvloop) = lhs_parts(repo, rel, cls)
+        C = ctx_of(mf)
+        g = C.g
+        B = Bounds(C, dvloop)
+        if not isinstance(rowloop.target, ast.Name):
+            out.unsure(mf, rowloop, 'row loop target not a name')
+            continue
+        rowv = rowloop.target.id
+        rh = C.at(rowloop)
+        slices = []
+
+        def sample_of(e, at):
+            """Is e (a slice of) the design row?"""
+            if isinstance(e, ast.Name):
+                v = C.rd.value(at, e.id)
+                if v is None:
+                    return False
+                return sample_of(v, next(iter(C.rd.defs(at, e.id))))
+            if isinstance(e, ast.Subscript) and isinstance(e.value, ast.Name) and e.value.id == rowv and \
+                    C.rd.defs(at, rowv) == {rh} and isinstance(e.slice, ast.Slice):
+                slices.append((e, at))
+                return True
+            return False
+        # the appended value
+        apps = [c for n in g.body_nodes(dvloop) if n.kind == 'stmt' for c in n.calls()
+                if astx.callee_attr(c) == 'append' and len(c.args) == 1]
+        if len(apps) != 1:
+            out.unsure(mf, dvloop, f'expected one append in the design-variable loop, found {len(apps)}')
+            continue
+        a = apps[0].args[0]
+        ve = a.elts[1] if isinstance(a, ast.Tuple) and len(a.elts) == 2 else a
+        if not isinstance(ve, ast.Name):
+            out.unsure(mf, astx.stmt_of(apps[0]), 'appended value is not a local name')
+            continue
+        app_at = C.at(astx.stmt_of(apps[0]))
+        vdef = C.rd.defs(app_at, ve.id)
+        vstmt = next(iter(vdef)).ast if len(vdef) == 1 else astx.stmt_of(apps[0])
+        try:
+            p = poly(ve, app_at, C, B, sample_of)
+        except _NoPoly as ex:
+            if B.carried:
+                out.bad(mf, B.carried[0].ast, f'bound `{B.carried[1]}` is loop-carried', key='lhs-loop-carried')
+            else:
+                out.unsure(mf, vstmt, f'Latin-hypercube map not a polynomial in lower/upper/sample: {ex}')
+            continue
+        if p != LHS_WANT:
+            out.bad(mf, vstmt, f'the sample s in [0,1] is mapped to {_pfmt(p)} (L=lower, U=upper), which is not '
+                    'L + s*(U - L): generated values leave [lower, upper] or do not span it, so strata of the unit '
+                    'cube are not strata of the bounds', key='lhs-affine')
+            continue
+        if len({astx.dump(e) for e, _ in slices}) != 1:
+            out.unsure(mf, vstmt, 'several different slices of the design row are used')
+            continue
+        sl, sl_at = slices[0]
+        lo, hi = sl.slice.lower, sl.slice.upper
+        if not (isinstance(lo, ast.Name) and sl.slice.step is None and isinstance(hi, ast.BinOp) and
+                isinstance(hi.op, ast.Add)):
+            out.unsure(mf, astx.stmt_of(sl), f'design-row slice `{astx.src(sl)}` not of the form row[c:c + size]')
+            continue
+        acc = lo.id
+        if isinstance(hi.left, ast.Name) and hi.left.id == acc:
+            width = hi.right
+        elif isinstance(hi.right, ast.Name) and hi.right.id == acc:
+            width = hi.left
+        else:
+            out.bad(mf, astx.stmt_of(sl), f'design-row slice `{astx.src(sl)}` does not end at `{acc}` + size',
+                    key='lhs-slice')
+            continue
+        if not check_offset(C, out, mf, acc, '<slice>', astx.stmt_of(sl), dvloop, None, 'Latin-hypercube columns',
+                            'lhs', size=width):
+            continue
+        if not emit_check(C, out, mf, ve.id, dvloop, rowloop, B.key, 'lhs', 'Latin-hypercube case'):
+            continue
+        # the number of design columns is the sum of the same per-variable size
+        CC = ctx_of(cf)
+        n_e = astx.arg(call, 0, 'n')
+        call_at = CC.at(astx.stmt_of(call))
+        tot = n_e
+        if isinstance(n_e, ast.Name):
+            tot = CC.rd.value(call_at, n_e.id)
+        wv = width
+        if isinstance(width, ast.Name):
+            wv = C.rd.value(sl_at, width.id) or width
+        verdict = None
+        if isinstance(tot, ast.Call) and astx.call_name(tot) == 'sum' and len(tot.args) == 1 and \
+                isinstance(tot.args[0], (ast.ListComp, ast.GeneratorExp)) and len(tot.args[0].generators) == 1 \
+                and not tot.args[0].generators[0].ifs:
+            comp = tot.args[0]
+            gen = comp.generators[0]
+            ren = {}
+            if isinstance(gen.target, ast.Name) and astx.callee_attr(gen.iter) == 'values':
+                ren[gen.target.id] = B.meta
+            elif isinstance(gen.target, ast.Tuple) and len(gen.target.elts) == 2 and \
+                    astx.callee_attr(gen.iter) == 'items':
+                ren[gen.target.elts[0].id] = B.key
+                ren[gen.target.elts[1].id] = B.meta
+            elt = astx.canon(comp.elt)
+            for w_ in ast.walk(elt):
+                if isinstance(w_, ast.Name) and w_.id in ren:
+                    w_.id = ren[w_.id]
+            if ren and ast.dump(elt) == ast.dump(astx.canon(wv)):
+                verdict = True
+        elif isinstance(tot, ast.Call) and astx.call_name(tot) == 'len':
+            verdict = False
+        if verdict is False:
+            out.bad(cf, astx.stmt_of(call), f'the design has `{astx.src(tot)}` columns (one per variable) but every '
+                    f'variable consumes `{astx.src(wv)}` columns: elements of array variables share one sample '
+                    '(perfectly correlated dimensions) or run out of columns', key='lhs-columns')
+            continue
+        if verdict is None:
+            out.unsure(cf, astx.stmt_of(call), f'cannot relate the number of design columns `{astx.src(tot)}` to the '
+                       f'per-variable width `{astx.src(wv)}`')
+            continue
+        out.ok(mf, vstmt, f'{ve.id} == lower + {rowv}[{acc}:{acc}+size]*(upper - lower); `{acc}` advances by size and is '
+               'reset per row; one case per design row; columns = sum of sizes')
+
+
+# =========================================================================== uniform
+def uniform_draws(fn):
+    return [c for c in astx.calls(fn.node) if (astx.call_name(c) or '').endswith('random.uniform')
+            or (astx.callee_attr(c) == 'uniform')]
+
+
+@rule('C23.uniform', floor=2)
+def uniform(repo, out):
+    """Uniform draws are taken between lower and upper of the variable they are stored for."""
+    for rel, qn in ((DG, 'UniformGenerator.__call__'), (SU, 'UniformGenerator.__next__')):
+        fn = repo.func(rel, qn)
+        C = ctx_of(fn)
+        draws = uniform_draws(fn)
+        if not draws:
+            raise AnalysisError(f'{fn.ident}: no uniform draw found')
+        for c in draws:
+            st = astx.stmt_of(c)
+            dvloop = next((l for l in C.loops_of(st) if is_items_loop(l)), None)
+            if dvloop is None:
+                out.unsure(fn, st, 'draw is not inside a loop over the variables')
+                continue
+            B = Bounds(C, dvloop)
+            at = C.at(st)
+            lo, hi = astx.arg(c, 0, 'low'), astx.arg(c, 1, 'high')
+            if lo is None or hi is None:
+                out.unsure(fn, st, 'uniform(low, high) arguments not found')
+                continue
+            r1, r2 = B.resolve(lo, at), B.resolve(hi, at)
+            if r1 == CARRIED or r2 == CARRIED:
+                out.bad(fn, B.carried[0].ast, f'bound `{B.carried[1]}` is loop-carried', key='uniform-loop-carried')
+                continue
+            if r1 is None or r2 is None:
+                out.unsure(fn, st, f'`{astx.src(lo)}` / `{astx.src(hi)}` do not resolve to bounds of the variable')
+                continue
+            if {r1[1], r2[1]} != {'lower', 'upper'} or r1[2] is not None or r2[2] is not None:
+                out.bad(fn, st, f'the draw is taken between {B.meta}[{r1[1]!r}] and {B.meta}[{r2[1]!r}]'
+                        f'{" (single elements)" if r1[2] or r2[2] else ""} instead of the lower and upper bound of the '
+                        'variable: samples are constant or leave the bounds', key='uniform-bounds')
+                continue
+            # where does the draw go?
+            caseloop = None
+            outer = C.loops_of(dvloop)
+            if outer:
+                caseloop = outer[0]
+            if isinstance(st, ast.Assign) and isinstance(st.targets[0], ast.Subscript):
+                t = st.targets[0]
+                if isinstance(t.slice, ast.Name) and t.slice.id == B.key:
+                    out.ok(fn, st, f'draw between {B.meta}[lower] and {B.meta}[upper], stored under [{B.key}]')
+                else:
+                    out.bad(fn, st, f'draw for `{B.key}` stored under `{astx.src(t.slice)}`', key='uniform-store')
+                continue
+            # appended (directly or through a temporary)
+            vn = None
+            if isinstance(st, ast.Assign) and isinstance(st.targets[0], ast.Name):
+                vn = st.targets[0].id
+            if vn is None:
+                # inline: X.append((name, draw))
+                par = astx.enclosing(c, (ast.Call,))
+                if par is not None and astx.callee_attr(par) == 'append' and isinstance(par.args[0], ast.Tuple) and \
+                        len(par.args[0].elts) == 2 and par.args[0].elts[1] is c:
+                    k = par.args[0].elts[0]
+                    if not (isinstance(k, ast.Name) and k.id == B.key):
+                        out.bad(fn, st, f'draw for `{B.key}` is attached to `{astx.src(k)}`', key='uniform-store')
+                        continue
+                    # reuse emit_check by naming the draw through a pseudo value: check structure directly
+                    g = C.g
+                    dvh = C.at(dvloop)
+                    entry = [m for m, lab in g.succ[dvh] if lab == 'true']
+                    w = g.path(entry, [dvh], avoid=[at], labels=cfgm.noexc)
+                    if w is not None:
+                        out.bad(fn, st, 'a variable can be left out of the sample: ' + g.fmt_path(w),
+                                key='uniform-emit-var')
+                        continue
+                    R = astx.receiver(par)
+                    if caseloop is not None and isinstance(R, ast.Name):
+                        ok_ = _emit_case_only(C, out, fn, R.id, dvloop, caseloop, 'uniform', 'uniform sample')
+                        if not ok_:
+                            continue
+                    out.ok(fn, st, f'draw between {B.meta}[lower] and {B.meta}[upper], appended as ({B.key}, draw); one '
+                           'sample per iteration')
+                    continue
+                out.unsure(fn, st, 'destination of the draw not recognised')
+                continue
+            if emit_check(C, out, fn, vn, dvloop, caseloop, B.key, 'uniform', 'uniform sample'):
+                out.ok(fn, st, f'draw between {B.meta}[lower] and {B.meta}[upper], appended for {B.key}')
+
+
+def _emit_case_only(C, out, fn, R, dvloop, caseloop, keyp, what):
+    """Case-level half of emit_check for a list named R."""
+    g = C.g
+    ch = C.at(caseloop)
+    cbody = set(g.body_nodes(caseloop))
+    dbody = set(g.body_nodes(dvloop))
+
+    def emits(n):
+        return n.kind == 'stmt' and any(isinstance(w_, ast.Yield) and isinstance(w_.value, ast.Name) and
+                                        w_.value.id == R for w_ in astx.walk(n.ast))
+    ems = [n for n in cbody if emits(n)]
+    if [n for n in ems if n in dbody]:
+        out.bad(fn, [n for n in ems if n in dbody][0].ast, f'{what}: `{R}` is yielded once per variable with a partial '
+                'list', key=f'{keyp}-emit-case')
+        return False
+    if not ems:
+        late = [n for n in g.nodes if n not in cbody and emits(n)]
+        if late:
+            out.bad(fn, late[0].ast, f'{what}: `{R}` is yielded after the sample loop: only one case is produced',
+                    key=f'{keyp}-emit-case')
+        else:
+            out.unsure(fn, caseloop, f'{what}: no `yield {R}` found')
+        return False
+    entry = [m for m, lab in g.succ[ch] if lab == 'true']
+    w = g.path(entry, [ch], avoid=ems, labels=cfgm.noexc)
+    if w is not None:
+        out.bad(fn, ems[0].ast, f'{what}: a sample can be skipped: ' + g.fmt_path(w), key=f'{keyp}-emit-case')
+        return False
+    ext = set()
+    for e in ems:
+        ext |= C.rd.defs(e, R)
+    stale = [d for d in ext if d not in cbody]
+    if stale:
+        out.bad(fn, stale[0].ast, f'{what}: the list `{R}` is created outside the sample loop: every yielded case is '
+                'the same growing list', key=f'{keyp}-emit-case')
+        return False
+    return True
+
+
+# =========================================================================== seeding
+def seed_path(C, e, at):
+    """True if e denotes self._seed (directly or through a local alias)."""
+    if astx.path(e) == 'self._seed':
+        return True
+    if isinstance(e, ast.Name):
+        v = C.rd.value(at, e.id)
+        return v is not None and astx.path(v) == 'self._seed'
+    return False
+
+
+def seed_test(C, t, at):
+    """'pos' if test true => seed is not None; 'neg' if test true => seed is None; else None."""
+    if isinstance(t, ast.UnaryOp) and isinstance(t.op, ast.Not):
+        r = seed_test(C, t.operand, at)
+        return {'pos': 'neg', 'neg': 'pos'}.get(r)
+    if isinstance(t, ast.Compare) and len(t.ops) == 1 and isinstance(t.ops[0], (ast.Is, ast.IsNot, ast.Eq, ast.NotEq)):
+        a, b = t.left, t.comparators[0]
+        if isinstance(a, ast.Constant) and a.value is None:
+            a, b = b, a
+        if isinstance(b, ast.Constant) and b.value is None and seed_path(C, a, at):
+            return 'pos' if isinstance(t.ops[0], (ast.IsNot, ast.NotEq)) else 'neg'
+    return None
+
+
+def seeded_edge_ok(C):
+    def ok(n, m, lab):
+        if n.kind == 'test' and lab in ('true', 'false') and isinstance(n.ast, ast.If):
+            r = seed_test(C, n.ast.test, n)
+            if r == 'pos' and lab == 'false':
+                return False
+            if r == 'neg' and lab == 'true':
+                return False
+        return lab != 'exc'
+    return ok
+
+
+def check_global_seed(C, out, fn, targets, what):
+    """Every path (seed not None) from entry to a target passes np.random.seed(self._seed)."""
+    g = C.g
+    seeds = []
+    for n in g.nodes:
+        if n.kind in ('stmt', 'test', 'iter', 'with'):
+            for c in n.calls():
+                if (astx.call_name(c) or '').endswith('random.seed'):
+                    seeds.append((n, c))
+    if not seeds:
+        out.bad(fn, fn.node, f'{what}: the numpy global generator is never seeded with self._seed: two generators built '
+                'with the same seed yield different cases', key='seed-missing')
+        return False
+    good = []
+    for n, c in seeds:
+        a = astx.arg(c, 0, 'seed')
+        if a is not None and seed_path(C, a, n):
+            good.append(n)
+        elif isinstance(a, ast.Constant) or a is None:
+            out.bad(fn, n.ast, f'{what}: the generator is seeded with `{astx.src(a) if a is not None else ""}` instead of '
+                    'self._seed: the user\'s seed has no effect', key='seed-value')
+            return False
+        else:
+            out.unsure(fn, n.ast, f'{what}: seed argument `{astx.src(a)}` not recognised')
+            return False
+    w = g.path([g.entry], targets, avoid=good, edge_ok=seeded_edge_ok(C))
+    if w is not None:
+        out.bad(fn, good[0].ast, f'{what}: with a seed that is not None the first draw can be reached without '
+                f'np.random.seed(self._seed) (note that 0 is a valid seed): ' + g.fmt_path(w), key='seed-order')
+        return False
+    return True
+
+
+@rule('C23.seed', floor=4)
+def seed(repo, out):
+    """Seeded generators: np.random.seed(self._seed) dominates the first global draw whenever seed is not None; LHS forwards the seed to pydoe."""
+    # Uniform (DOEDriver): seed and draws in the same function
+    fn = repo.func(DG, 'UniformGenerator.__call__')
+    C = ctx_of(fn)
+    draws = uniform_draws(fn)
+    if not draws:
+        raise AnalysisError(f'{fn.ident}: no draw')
+    glob = [c for c in draws if (astx.call_name(c) or '').split('.')[0] in _NP]
+    if len(glob) != len(draws):
+        out.unsure(fn, astx.stmt_of(draws[0]), 'draws do not use the numpy global generator')
+    else:
+        tg = [C.at(astx.stmt_of(c)) for c in glob]
+        if check_global_seed(C, out, fn, tg, 'UniformGenerator'):
+            out.ok(fn, astx.stmt_of(glob[0]), 'np.random.seed(self._seed) precedes every np.random.uniform when seed is '
+                   'not None')
+    # Uniform (AnalysisDriver): seed in _setup (run from __init__ and on reset), draws in __next__
+    fs = repo.func(SU, 'UniformGenerator._setup')
+    fnx = repo.func(SU, 'UniformGenerator.__next__')
+    Cs = ctx_of(fs)
+    dn = uniform_draws(fnx)
+    if not dn or any((astx.call_name(c) or '').split('.')[0] not in _NP for c in dn):
+        out.unsure(fnx, fnx.node, 'draws do not use the numpy global generator')
+    elif check_global_seed(Cs, out, fs, [Cs.g.exit], 'sampling UniformGenerator._setup'):
+        fi = repo.func(SU, 'UniformGenerator.__init__')
+        Ci = ctx_of(fi)
+        sup = [n for n in Ci.g.calling('__init__')]
+        sets = [n for n in Ci.g.nodes if n.kind == 'stmt' and isinstance(n.ast, ast.Assign) and
+                any(astx.path(t) == 'self._seed' for t in n.ast.targets)]
+        if not sets:
+            out.bad(fi, fi.node, 'self._seed is never stored', key='seed-attr')
+        elif sup and Ci.g.path([Ci.g.entry], sup, avoid=sets, labels=cfgm.noexc) is not None:
+            out.bad(fi, sets[0].ast, 'self._seed is stored after the base-class constructor ran _setup', key='seed-attr')
+        else:
+            out.ok(fs, fs.node, '_setup seeds the numpy global generator on every path when seed is not None')
+    # Latin hypercube: the seed must reach pydoe
+    for rel, cls in LHS:
+        (cf, call), _ = lhs_parts(repo, rel, cls)
+        CC = ctx_of(cf)
+        at = CC.at(astx.stmt_of(call))
+        kw = astx.kwarg(call, 'random_state')
+        if kw is None:
+            kw = astx.kwarg(call, 'seed')
+        if kw is None:
+            if any(k.arg is None for k in call.keywords):
+                out.unsure(cf, astx.stmt_of(call), 'lhs called with **kwargs')
+                continue
+            out.bad(cf, astx.stmt_of(call), 'the seed is not passed to pydoe lhs (random_state=/seed=): lhs then draws '
+                    'from a fresh, unseeded generator, which np.random.seed does not control, so a seeded '
+                    'LatinHypercubeGenerator is not reproducible', key='seed-forward')
+            continue
+        if seed_path(CC, kw, at):
+            out.ok(cf, astx.stmt_of(call), 'self._seed is forwarded to pydoe lhs')
+        elif isinstance(kw, ast.Constant):
+            out.bad(cf, astx.stmt_of(call), f'pydoe lhs gets the fixed seed `{astx.src(kw)}` instead of self._seed',
+                    key='seed-forward')
+        else:
+            out.unsure(cf, astx.stmt_of(call), f'seed argument `{astx.src(kw)}` not recognised')
+
+
+# =========================================================================== DOEDriver
+def truthy_str(e):
+    """True if the expression is certainly a non-empty string."""
+    if isinstance(e, ast.Constant) and isinstance(e.value, str):
+        return bool(e.value)
+    if isinstance(e, ast.JoinedStr):
+        return any(isinstance(v, ast.Constant) and v.value for v in e.values)
+    if isinstance(e, ast.BinOp) and isinstance(e.op, ast.Add):
+        return truthy_str(e.left) or truthy_str(e.right)
+    if isinstance(e, ast.BinOp) and isinstance(e.op, ast.Mod) and isinstance(e.left, ast.Constant) and \
+            isinstance(e.left.value, str):
+        return bool(re.sub(r'%[-#0 +]*\d*(?:\.\d+)?[a-zA-Z%]', '', e.left.value).strip())
+    if isinstance(e, ast.Call) and isinstance(e.func, ast.Attribute) and e.func.attr == 'format' and \
+            isinstance(e.func.value, ast.Constant) and isinstance(e.func.value.value, str):
+        return bool(re.sub(r'\{[^}]*\}', '', e.func.value.value).strip())
+    return False
+
+
+def flag_search(g, starts, targets, flags):
+    """Path search with a tiny abstract store for local flag names in `flags`.
+
+    Store values: 'none' | 'truthy' | '?'.  Tests `if x:`, `if not x:`, `if x is None:`, `if x is not None:`
+    only take the feasible edge.  Returns a witness path to a target or None.
+    """
+    from collections import deque
+    flags = sorted(flags)
+    init = tuple('?' for _ in flags)
+    par = {}
+    dq = deque()
+    for s in starts:
+        par[(s, init)] = None
+        dq.append((s, init))
+
+    def feasible(test, env):
+        """set of possible truth values of test"""
+        if isinstance(test, ast.UnaryOp) and isinstance(test.op, ast.Not):
+            return {not v for v in feasible(test.operand, env)}
+        if isinstance(test, ast.Name) and test.id in flags:
+            v = env[flags.index(test.id)]
+            return {'none': {False}, 'truthy': {True}}.get(v, {True, False})
+        if isinstance(test, ast.Compare) and len(test.ops) == 1 and isinstance(test.left, ast.Name) and \
+                test.left.id in flags and isinstance(test.comparators[0], ast.Constant) and \
+                test.comparators[0].value is None and isinstance(test.ops[0], (ast.Is, ast.IsNot)):
+            v = env[flags.index(test.left.id)]
+            isnone = {'none': {True}, 'truthy': {False}}.get(v, {True, False})
+            return isnone if isinstance(test.ops[0], ast.Is) else {not x for x in isnone}
+        return {True, False}
+    while dq:
+        n, env = dq.popleft()
+        if n in targets:
+            p = []
+            k = (n, env)
+            while k is not None:
+                p.append(k[0])
+                k = par[k]
+            return p[::-1]
+        env2 = env
+        if n.kind == 'stmt' and isinstance(n.ast, ast.Assign):
+            for t in astx.assigned_targets(n.ast):
+                if isinstance(t, ast.Name) and t.id in flags:
+                    v = n.ast.value
+                    nv = 'none' if isinstance(v, ast.Constant) and v.value is None else \
+                        'truthy' if truthy_str(v) else '?'
+                    l = list(env2)
+                    l[flags.index(t.id)] = nv
+                    env2 = tuple(l)
+        elif n.kind == 'stmt' and isinstance(n.ast, (ast.AugAssign, ast.AnnAssign, ast.Delete)):
+            for t in astx.assigned_targets(n.ast):
+                if isinstance(t, ast.Name) and t.id in flags:
+                    l = list(env2)
+                    l[flags.index(t.id)] = '?'
+                    env2 = tuple(l)
+        allowed = None
+        if n.kind == 'test' and isinstance(n.ast, (ast.If, ast.While)):
+            allowed = feasible(n.ast.test, env)
+        for m, lab in g.succ[n]:
+            if allowed is not None and lab in ('true', 'false') and (lab == 'true') not in allowed:
+                continue
+            # an exception raised by the assignment statement itself leaves the old store
+            e = env if lab == 'exc' else env2
+            k = (m, e)
+            if k not in par:
+                par[k] = (n, env)
+                dq.append(k)
+    return None
+
+
+_FLAT = ('flatten', 'ravel')
+
+
+@rule('C23.apply', floor=4)
+def apply(repo, out):
+    """DOEDriver: every (name, value) of a case reaches _set_design_var(name, value) before the solve; failures re-raise; every case is run."""
+    fn = repo.func(DD, 'DOEDriver._run_case')
+    C = ctx_of(fn)
+    g = C.g
+    args = [a.arg for a in fn.node.args.args]
+    if len(args) < 2:
+        raise AnalysisError(f'{fn.ident}: no case parameter')
+    casep = args[1]
+    loops = [st for st in astx.walk_stmts(fn.node.body) if isinstance(st, ast.For) and
+             isinstance(st.iter, ast.Name) and st.iter.id == casep and C.rd.defs(C.at(st), casep) == {g.entry}]
+    if len(loops) != 1:
+        raise AnalysisError(f'{fn.ident}: expected one loop over `{casep}`, found {len(loops)}')
+    loop = loops[0]
+    if not (isinstance(loop.target, ast.Tuple) and len(loop.target.elts) == 2 and
+            all(isinstance(e, ast.Name) for e in loop.target.elts)):
+        out.unsure(fn, loop, 'case entries are not unpacked as (name, value)')
+        return
+    nv, vv = loop.target.elts[0].id, loop.target.elts[1].id
+    hdr = C.at(loop)
+    body = set(g.body_nodes(loop))
+    sets = []
+    shape_ok = True
+    for n in g.nodes:
+        if n.kind not in ('stmt', 'test', 'iter', 'with'):
+            continue
+        for c in n.calls():
+            if astx.callee_attr(c) in ('_set_design_var', 'set_design_var') and astx.path(astx.receiver(c)) == 'self':
+                sets.append((n, c))
+    solves = g.calling('_run_solve_nonlinear', recv='self')
+    if not solves:
+        raise AnalysisError(f'{fn.ident}: no self._run_solve_nonlinear() call')
+    if not sets:
+        out.bad(fn, loop, 'the case values are never passed to self._set_design_var: the model is evaluated at its '
+                'previous design point', key='apply-missing')
+        return
+    good = []
+    for n, c in sets:
+        if n not in body:
+            out.bad(fn, n.ast, 'a design variable is set outside the loop over the case entries', key='apply-outside')
+            shape_ok = False
+            continue
+        a0, a1 = astx.arg(c, 0, 'name'), astx.arg(c, 1, 'value')
+        extra = [k.arg for k in c.keywords if k.arg not in ('name', 'value')] + [1 for _ in c.args[2:]]
+        if a0 is None or a1 is None:
+            out.unsure(fn, n.ast, '_set_design_var arguments not recognised')
+            shape_ok = False
+            continue
+        if extra:
+            kws = {k.arg: k.value for k in c.keywords}
+            harmless = not c.args[2:] and all(
+                (k == 'set_remote' and isinstance(v, ast.Constant) and v.value is True) or
+                (k == 'units' and isinstance(v, ast.Constant) and v.value is None)
+                for k, v in kws.items() if k not in ('name', 'value'))
+            if not harmless:
+                out.unsure(fn, n.ast, f'_set_design_var called with extra arguments {extra}')
+                shape_ok = False
+                continue
+        name_ok = isinstance(a0, ast.Name) and a0.id == nv and C.rd.defs(n, nv) == {hdr}
+
+        def val_ok(e):
+            if isinstance(e, ast.Name):
+                return e.id == vv and C.rd.defs(n, vv) == {hdr}
+            if isinstance(e, ast.Call) and isinstance(e.func, ast.Attribute) and e.func.attr in _FLAT and not e.args:
+                return val_ok(e.func.value)
+            if isinstance(e, ast.Call) and isinstance(e.func, ast.Attribute) and e.func.attr == 'reshape' and \
+                    len(e.args) == 1 and astx.src(e.args[0]) in ('-1', '(-1,)'):
+                return val_ok(e.func.value)
+            if np_call(e, 'ravel', 'asarray', 'atleast_1d') and len(e.args) == 1:
+                return val_ok(e.args[0])
+            return False
+        if name_ok and val_ok(a1):
+            good.append(n)
+            continue
+        simple = lambda e: isinstance(e, (ast.Name, ast.Constant, ast.Subscript)) or \
+            (isinstance(e, ast.Call) and isinstance(e.func, ast.Attribute) and isinstance(e.func.value, ast.Name))
+        if simple(a0) and simple(a1):
+            out.bad(fn, n.ast, f'`{astx.src(c)}` does not pass the entry ({nv}, {vv}) of the case: the model is evaluated '
+                    'at a value the generator did not produce', key='apply-args')
+        else:
+            out.unsure(fn, n.ast, f'arguments of `{astx.src(c)}` not recognised')
+        shape_ok = False
+    if not shape_ok:
+        return
+    # (a) every entry is applied
+    entry = [m for m, lab in g.succ[hdr] if lab == 'true']
+    w = g.path(entry, [hdr] + solves, avoid=good, labels=cfgm.noexc)
+    if w is not None:
+        out.bad(fn, loop, 'an entry of the case can be passed over without self._set_design_var: the model keeps the '
+                'value of the previous case for that variable: ' + g.fmt_path(w), key='apply-skip')
+        return
+    # the loop cannot be left early towards the solve
+    w = g.path([m for n in good for m in g.normal_succ(n)], solves, avoid=[hdr], labels=cfgm.noexc)
+    if w is not None:
+        out.bad(fn, loop, 'the loop over the case entries can be left before all entries are applied: ' +
+                g.fmt_path(w), key='apply-skip')
+        return
+    out.ok(fn, loop, f'every path through `for {nv}, {vv} in {casep}` calls self._set_design_var({nv}, {vv}[.flatten()])')
+    # (b) ORDER
+    bad_order = None
+    for s in solves:
+        if g.dominated_by(s, [hdr], labels=cfgm.noexc) is not None:
+            bad_order = (s, 'the model can be solved before the case is applied: ' +
+                         g.fmt_path(g.dominated_by(s, [hdr], labels=cfgm.noexc)))
+        r = g.reach(g.normal_succ(s), labels=cfgm.noexc)
+        if r & set(good):
+            bad_order = (s, 'design variables are (also) set after the model was solved')
+    if bad_order:
+        out.bad(fn, bad_order[0].ast, bad_order[1], key='apply-order')
+    else:
+        out.ok(fn, solves[0].ast, 'self._run_solve_nonlinear() runs after the loop over the case entries, never before')
+    # (c) a failing assignment never continues to the solve / a normal return
+    flags = set()
+    for n in g.nodes:
+        if n.kind == 'stmt' and isinstance(n.ast, ast.Assign):
+            for t in n.ast.targets:
+                if isinstance(t, ast.Name) and (isinstance(n.ast.value, ast.Constant) and n.ast.value.value is None
+                                                or truthy_str(n.ast.value)):
+                    flags.add(t.id)
+    starts = [m for n in good for m, lab in g.succ[n] if lab == 'exc' and m is not g.raise_exit]
+    w = flag_search(g, starts, set(solves) | {g.exit}, flags) if starts else None
+    if w is not None:
+        out.bad(fn, good[0].ast, 'an exception raised while assigning a design variable can be swallowed: execution '
+                'continues (' + g.fmt_path(w) + ') and the model is solved / recorded at a point that is not the '
+                'generated case', key='apply-swallow')
+    else:
+        out.ok(fn, good[0].ast, 'an exception from self._set_design_var always leaves _run_case by an exception')
+    # (d) run(): every generated case is run
+    fr = repo.func(DD, 'DOEDriver.run')
+    Cr = ctx_of(fr)
+    gr = Cr.g
+    rc = [(n, c) for n in gr.nodes if n.kind == 'stmt' for c in n.calls()
+          if astx.callee_attr(c) == '_run_case' and astx.path(astx.receiver(c)) == 'self']
+    if not rc:
+        raise AnalysisError(f'{fr.ident}: no self._run_case call')
+    for n, c in rc:
+        lp = next((l for l in Cr.loops_of(n.ast)), None)
+        if lp is None or not isinstance(lp.target, ast.Name):
+            out.unsure(fr, n.ast, '_run_case is not called in a loop over the generated cases')
+            continue
+        a = astx.arg(c, 0, 'case')
+        lh = Cr.at(lp)
+        if not (isinstance(a, ast.Name) and a.id == lp.target.id and Cr.rd.defs(n, a.id) == {lh}):
+            out.bad(fr, n.ast, f'_run_case gets `{astx.src(a)}` instead of the generated case `{lp.target.id}`',
+                    key='run-case-arg')
+            continue
+        entry = [m for m, lab in gr.succ[lh] if lab == 'true']
+        w = gr.path(entry, [lh], avoid=[n], labels=cfgm.noexc)
+        if w is not None:
+            out.bad(fr, n.ast, 'a generated case can be skipped without being run: ' + gr.fmt_path(w),
+                    key='run-case-skip')
+            continue
+        # the generator is called with the driver's own design-variable metadata
+        it = lp.iter
+        a0 = it.args[0] if isinstance(it, ast.Call) and it.args else None
+        a0v = a0
+        if isinstance(a0, ast.Name):
+            a0v = Cr.rd.value(lh, a0.id) or a0
+        if a0 is None or astx.path(a0v) != 'self._designvars':
+            out.unsure(fr, lp, 'generator is not called with self._designvars')
+            continue
+        out.ok(fr, n.ast, 'every case generated from self._designvars is passed to self._run_case exactly as generated')
+
+
+def _expand(C, e, at, subst, depth=0):
+    """Copy of e with local names replaced by their unique definitions (and `subst` path renames)."""
+    if depth > 8:
+        return e
+    if isinstance(e, ast.Name):
+        if e.id in subst:
+            return subst[e.id]
+        v = C.rd.value(at, e.id)
+        if v is not None:
+            d = next(iter(C.rd.defs(at, e.id)))
+            # chained assignment `a = self.x = expr`
+            return _expand(C, v, d, subst, depth + 1)
+        ds = C.rd.defs(at, e.id)
+        if len(ds) == 1:
+            d = next(iter(ds))
+            if d.kind == 'stmt' and isinstance(d.ast, ast.Assign) and len(d.ast.targets) > 1:
+                return _expand(C, d.ast.value, d, subst, depth + 1)
+        return e
+    if isinstance(e, ast.AST):
+        new = e.__class__()
+        for f in e._fields:
+            v = getattr(e, f, None)
+            if isinstance(v, list):
+                setattr(new, f, [_expand(C, x, at, subst, depth) if isinstance(x, ast.AST) else x for x in v])
+            elif isinstance(v, ast.AST):
+                setattr(new, f, _expand(C, v, at, subst, depth))
+            else:
+                setattr(new, f, v)
+        return new
+    return e
+
+
+@rule('C23.partition', floor=1)
+def partition(repo, out):
+    """Parallel DOE: case i runs on colour i % ncolors, with the same ncolors/colour the communicator was split by."""
+    fp = repo.func(DD, 'DOEDriver._parallel_generator')
+    fs = repo.func(DD, 'DOEDriver._setup_comm')
+    Cp, Cs = ctx_of(fp), ctx_of(fs)
+    ys = [n for n in Cp.g.nodes if n.kind == 'stmt' and any(isinstance(w_, ast.Yield) for w_ in astx.walk(n.ast))]
+    if len(ys) != 1:
+        raise AnalysisError(f'{fp.ident}: expected one yield')
+    y = ys[0]
+    lp = next((l for l in Cp.loops_of(y.ast)), None)
+    if lp is None or not (isinstance(lp.iter, ast.Call) and astx.call_name(lp.iter) == 'enumerate' and
+                          isinstance(lp.target, ast.Tuple) and len(lp.target.elts) == 2 and
+                          all(isinstance(e, ast.Name) for e in lp.target.elts)):
+        out.unsure(fp, y.ast, 'cases are not enumerated')
+        return
+    iv, cv = lp.target.elts[0].id, lp.target.elts[1].id
+    yv = next(w_ for w_ in astx.walk(y.ast) if isinstance(w_, ast.Yield)).value
+    if not (isinstance(yv, ast.Name) and yv.id == cv):
+        out.bad(fp, y.ast, f'yields `{astx.src(yv)}` instead of the enumerated case `{cv}`', key='partition-yield')
+        return
+    guards = [a for a in astx.ancestors(y.ast) if isinstance(a, ast.If) and astx.in_body(y.ast, lp, 'body')
+              and astx.in_body(a, lp, 'body')]
+    if len(guards) != 1 or not astx.in_body(y.ast, guards[0], 'body'):
+        out.unsure(fp, y.ast, 'case filter not a single `if` around the yield')
+        return
+    t = guards[0].test
+    if not (isinstance(t, ast.Compare) and len(t.ops) == 1):
+        out.unsure(fp, guards[0], 'case filter is not a comparison')
+        return
+    l, r = t.left, t.comparators[0]
+    if not (isinstance(l, ast.BinOp) and isinstance(l.op, ast.Mod)):
+        l, r = r, l
+    if not (isinstance(l, ast.BinOp) and isinstance(l.op, ast.Mod) and isinstance(l.left, ast.Name) and
+            l.left.id == iv):
+        out.unsure(fp, guards[0], f'case filter is not of the form `{iv} % ncolors == color`')
+        return
+    if not isinstance(t.ops[0], ast.Eq):
+        out.bad(fp, guards[0], f'the case filter `{astx.src(t)}` does not select exactly one colour per case: cases are '
+                'run on several process groups (or on none)', key='partition-filter')
+        return
+    at = Cp.at(guards[0])
+    # _setup_comm: self._problem_comm = comm ; color = self._color = comm.rank % ncolors
+    commp = [a.arg for a in fs.node.args.args][1] if len(fs.node.args.args) > 1 else None
+    stores = {}
+    for n in Cs.g.nodes:
+        if n.kind == 'stmt' and isinstance(n.ast, ast.Assign):
+            for tt in n.ast.targets:
+                p = astx.path(tt)
+                if p in ('self._problem_comm', 'self._color'):
+                    stores.setdefault(p, []).append(n)
+    if len(stores.get('self._color', [])) != 1 or len(stores.get('self._problem_comm', [])) != 1:
+        out.unsure(fs, fs.node, 'self._color / self._problem_comm not stored exactly once in _setup_comm')
+        return
+    pc = stores['self._problem_comm'][0]
+    if not (isinstance(pc.ast.value, ast.Name) and pc.ast.value.id == commp):
+        out.unsure(fs, pc.ast, 'self._problem_comm is not the communicator argument')
+        return
+    cn = stores['self._color'][0]
+    subst = {commp: ast.parse('self._problem_comm', mode='eval').body}
+    col_s = _expand(Cs, cn.ast.value, cn, subst)
+    if not (isinstance(col_s, ast.BinOp) and isinstance(col_s.op, ast.Mod)):
+        out.unsure(fs, cn.ast, f'colour `{astx.src(col_s)}` is not `rank % ncolors`')
+        return
+    if astx.path(col_s.left) != 'self._problem_comm.rank':
+        out.unsure(fs, cn.ast, f'colour is not derived from the rank: {astx.src(col_s)}')
+        return
+    ncol_s = col_s.right
+    ncol_p = _expand(Cp, l.right, at, {})
+    col_p = _expand(Cp, r, at, {})
+    if astx.path(col_p) != 'self._color':
+        if isinstance(col_p, ast.Constant) or astx.path(col_p) in ('self._problem_comm.rank', 'self.comm.rank'):
+            out.bad(fp, guards[0], f'cases are selected by `{astx.src(col_p)}` instead of the colour the communicator '
+                    'was split by', key='partition-colour')
+        else:
+            out.unsure(fp, guards[0], f'selected colour `{astx.src(col_p)}` not recognised')
+        return
+    if not astx.same(ncol_s, ncol_p):
+        out.bad(fp, guards[0], f'cases are dealt out modulo `{astx.src(ncol_p)}` but the communicator was split into '
+                f'`{astx.src(ncol_s)}` colours: some cases are run by no process group (never evaluated) or the '
+                'same case by several', key='partition-modulus')
+        return
+    out.ok(fp, guards[0], f'case i is run by colour i % ({astx.src(ncol_p)}), the number of colours of the split')
+
+
+# =========================================================================== self-test (part 1: pyDOE)
+_TAB_DG = ("            for k in range(size):\n"
+           "                lower = meta['lower']\n"
+           "                if isinstance(lower, np.ndarray):\n"
+           "                    lower = lower[k]\n")
+_TAB_SP = ("                for k in range(size):\n"
+           "                    lower = meta['lower']\n"
+           "                    if isinstance(lower, np.ndarray):\n"
+           "                        lower = lower[k]\n")
+selftest(
+    'C23',
+    # ---- loopdef (the F6 shape transplanted)
+    Mutant('loopdef-hoist-lower', DG, _TAB_DG,
+           "            lower = meta['lower']\n"
+           "            for k in range(size):\n"
+           "                if isinstance(lower, np.ndarray):\n"
+           "                    lower = lower[k]\n", 'C23.loopdef'),
+    Mutant('loopdef-hoist-upper-sampling', SP,
+           "                    upper = meta['upper']\n                    if isinstance(upper, np.ndarray):\n",
+           "                    if k == 0:\n                        upper = meta['upper']\n"
+           "                    if isinstance(upper, np.ndarray):\n", 'C23.loopdef'),
+    # ---- table
+    Mutant('table-upper-from-lower', DG, "                upper = meta['upper']\n                if isinstance(upper, np.ndarray):\n                    upper = upper[k]\n\n                levels",
+           "                upper = meta['lower']\n                if isinstance(upper, np.ndarray):\n                    upper = upper[k]\n\n                levels", 'C23.table'),
+    Mutant('table-elem-zero', DG, "                    lower = lower[k]\n", "                    lower = lower[0]\n", 'C23.table'),
+    Mutant('table-elem-row', SP, "                        upper = upper[k]\n", "                        upper = upper[row]\n", 'C23.table'),
+    Mutant('table-num-levels-max', DG, "values[row, 0:levels] = np.linspace(lower, upper, num=levels)",
+           "values[row, 0:levels_max] = np.linspace(lower, upper, num=levels_max)", 'C23.table'),
+    Mutant('table-num-default', SP, "                    levels = self._get_levels(name)\n",
+           "                    levels = _LEVELS\n", 'C23.table'),
+    Mutant('table-row-per-dv', DG, "                values[row, 0:levels] = np.linspace(lower, upper, num=levels)\n\n                row += 1\n",
+           "                values[row, 0:levels] = np.linspace(lower, upper, num=levels)\n\n            row += 1\n", 'C23.table'),
+    Mutant('table-row-step-first', DG, "                levels = self._get_dv_levels(name)\n                values[row, 0:levels] = np.linspace(lower, upper, num=levels)\n\n                row += 1\n",
+           "                levels = self._get_dv_levels(name)\n                row += 1\n"
+           "                values[row, 0:levels] = np.linspace(lower, upper, num=levels)\n", 'C23.table'),
+    Mutant('table-row-reset-in-loop', SP, "        row = 0\n        for name, meta in factors.items():\n            size = self._sizes[name]\n",
+           "        for name, meta in factors.items():\n            row = 0\n            size = self._sizes[name]\n", 'C23.table'),
+    # ---- index
+    Mutant('index-design-col-k', DG, "                    idx = idxs[row + k]\n", "                    idx = idxs[k]\n", 'C23.index'),
+    Mutant('index-table-row-k', DG, "                    val[k] = values[row + k][idx]\n", "                    val[k] = values[k][idx]\n", 'C23.index'),
+    Mutant('index-step-one', DG, "                row += size_i\n", "                row += 1\n", 'C23.index'),
+    Mutant('index-step-one-sampling', SP, "                row += size_i\n", "                row += 1\n", 'C23.index'),
+    Mutant('index-step-before', DG, "                val = np.empty(size_i)\n                for k in range(size_i):\n                    idx = idxs[row + k]\n                    val[k] = values[row + k][idx]\n                retval.append((name, val))\n                row += size_i\n",
+           "                val = np.empty(size_i)\n                row += size_i\n                for k in range(size_i):\n                    idx = idxs[row + k]\n                    val[k] = values[row + k][idx]\n                retval.append((name, val))\n", 'C23.index'),
+    Mutant('index-no-reset', DG, "        for idxs in doe:\n            retval = []\n            row = 0\n",
+           "        row = 0\n        for idxs in doe:\n            retval = []\n", 'C23.index'),
+    Mutant('index-offset-mismatch', SP, "                    val[k] = values[row + k][idx]\n",
+           "                    val[k] = values[row][idx]\n", 'C23.index'),
+    Mutant('index-step-wrong-size', SP, "                row += size_i\n", "                row += size\n", 'C23.index'),
+    # ---- levels
+    Mutant('levels-ignore-default', DG, "return sum([v * [self._get_dv_levels(k)] for k, v in sizes.items()], [])",
+           "return sum([v * [self._levels.get(k, _LEVELS)] for k, v in sizes.items()], [])", 'C23.levels'),
+    Mutant('levels-one-per-dv', SP, "return sum([v * [self._get_levels(k)] for k, v in sizes.items()], [])",
+           "return sum([[self._get_levels(k)] for k, v in sizes.items()], [])", 'C23.levels'),
+    Mutant('levels-uniform-default', DG, "return [self._levels] * sum(self._sizes.values())",
+           "return [_LEVELS] * sum(self._sizes.values())", 'C23.levels'),
+    Mutant('levels-uniform-per-dv', SP, "return [self._levels] * sum(self._sizes.values())",
+           "return [self._levels] * len(self._sizes)", 'C23.levels'),
+    # ---- design
+    Mutant('design-pb-no-clamp', DG, "        doe[doe < 0] = 0  # replace -1 with zero\n", "", 'C23.design'),
+    Mutant('design-pb-clamp-to-one', SP, "        doe[doe < 0] = 0  # replace -1 with zero\n", "        doe[doe < 0] = 1\n", 'C23.design'),
+    Mutant('design-pb-three-levels', DG, "        super().__init__(levels=2)\n", "        super().__init__(levels=3)\n", 'C23.design'),
+    Mutant('design-bb-no-shift', DG, "        return doe + 1  # replace [-1, 0, 1] with [0, 1, 2]", "        return doe", 'C23.design'),
+    Mutant('design-bb-abs', SP, "        return doe + 1  # replace [-1, 0, 1] with [0, 1, 2]", "        return abs(doe) + 1", 'C23.design'),
+    # ---- twins
+    Twin('twin-table-inline-levels', DG, "                levels = self._get_dv_levels(name)\n                values[row, 0:levels] = np.linspace(lower, upper, num=levels)\n",
+         "                values[row, :self._get_dv_levels(name)] = np.linspace(lower, upper, self._get_dv_levels(name))\n"),
+    Twin('twin-table-row-plus-k', DG, "                values[row, 0:levels] = np.linspace(lower, upper, num=levels)\n\n                row += 1\n",
+         "                values[row + k, 0:levels] = np.linspace(lower, upper, num=levels)\n\n            row += size\n"),
+    Twin('twin-index-flip-add', DG, "                    idx = idxs[row + k]\n                    val[k] = values[row + k][idx]\n",
+         "                    val[k] = values[k + row, idxs[k + row]]\n"),
+    Twin('twin-index-renamed', SP, "                size_i = _get_size(name, meta)\n                val = np.empty(size_i)\n                for k in range(size_i):\n                    idx = idxs[row + k]\n                    val[k] = values[row + k][idx]\n                retval.append(val)\n                row += size_i\n",
+         "                nel = _get_size(name, meta)\n                val = np.empty(nel)\n                for j in range(nel):\n                    col = idxs[row + j]\n                    val[j] = values[row + j][col]\n                row += nel\n                retval.append(val)\n"),
+    Twin('twin-pb-maximum', DG, "        doe[doe < 0] = 0  # replace -1 with zero\n", "        doe = np.maximum(doe, 0)\n"),
+    Twin('twin-bb-temp', SP, "        return doe + 1  # replace [-1, 0, 1] with [0, 1, 2]", "        shifted = 1 + doe\n        return shifted"),
+    Twin('twin-levels-flip-mult', DG, "return sum([v * [self._get_dv_levels(k)] for k, v in sizes.items()], [])",
+         "return sum([[self._get_dv_levels(nm)] * n for nm, n in sizes.items()], [])"),
+    Twin('twin-bounds-swapped-linspace-order', SP, "                    lower = meta['lower']\n                    if isinstance(lower, np.ndarray):\n                        lower = lower[k]\n\n                    upper = meta['upper']\n                    if isinstance(upper, np.ndarray):\n                        upper = upper[k]\n",
+         "                    upper = meta['upper']\n                    if isinstance(upper, np.ndarray):\n                        upper = upper[k]\n\n                    lower = meta['lower']\n                    if isinstance(lower, np.ndarray):\n                        lower = lower[k]\n"),
+)
+
+
+# =========================================================================== self-test (part 2: lhs / uniform / seed)
+_LHS_MAP = "val = lower + sample * (upper - lower)"
+selftest(
+    'C23',
+    # ---- emit (pyDOE)
+    Mutant('index-yield-per-variable', DG, "                row += size_i\n            yield retval\n",
+           "                row += size_i\n                yield retval\n", 'C23.index'),
+    Mutant('index-append-only-arrays', SP, "                retval.append(val)\n                row += size_i\n",
+           "                if size_i > 1:\n                    retval.append(val)\n                row += size_i\n", 'C23.index'),
+    Mutant('index-retval-shared', DG, "        for idxs in doe:\n            retval = []\n            row = 0\n",
+           "        retval = []\n        for idxs in doe:\n            row = 0\n", 'C23.index'),
+    # ---- lhs
+    Mutant('lhs-no-span', DG, _LHS_MAP, "val = lower + sample * upper", 'C23.lhs'),
+    Mutant('lhs-from-upper', SP, _LHS_MAP, "val = upper + sample * (upper - lower)", 'C23.lhs'),
+    Mutant('lhs-negated-span', DG, _LHS_MAP, "val = lower + sample * (lower - upper)", 'C23.lhs'),
+    Mutant('lhs-upper-is-lower', DG, "                upper = meta['upper']\n                if not isinstance(upper, np.ndarray):\n                    upper = upper * np.ones(size)\n\n                val",
+           "                upper = meta['lower']\n                if not isinstance(upper, np.ndarray):\n                    upper = upper * np.ones(size)\n\n                val", 'C23.lhs'),
+    Mutant('lhs-col-step-one', DG, "                col += size\n", "                col += 1\n", 'C23.lhs'),
+    Mutant('lhs-col-step-one-sampling', SP, "                    col += size\n", "                    col += 1\n", 'C23.lhs'),
+    Mutant('lhs-col-not-reset', DG, "        for row in doe:\n            retval = []\n            col = 0\n",
+           "        col = 0\n        for row in doe:\n            retval = []\n", 'C23.lhs'),
+    Mutant('lhs-col-before-slice', SP, "                    size = _get_size(name, meta)\n                    sample = row[col:col + size]\n",
+           "                    size = _get_size(name, meta)\n                    col += size\n                    sample = row[col:col + size]\n", 'C23.lhs'),
+    Mutant('lhs-columns-per-variable', DG, "size = sum([meta['size'] for meta in design_vars.values()])",
+           "size = len(design_vars)", 'C23.lhs'),
+    Mutant('lhs-yield-per-variable', DG, "                col += size\n\n            yield retval\n",
+           "                col += size\n\n                yield retval\n", 'C23.lhs'),
+    # ---- uniform
+    Mutant('uniform-low-low', DG, "np.random.uniform(lower, upper)", "np.random.uniform(lower, lower)", 'C23.uniform'),
+    Mutant('uniform-upper-key', DG, "                upper = meta['upper']\n                if not isinstance(upper, np.ndarray):\n                    upper = upper * np.ones(size)\n\n                sample",
+           "                upper = meta['lower']\n                if not isinstance(upper, np.ndarray):\n                    upper = upper * np.ones(size)\n\n                sample", 'C23.uniform'),
+    Mutant('uniform-sampling-key', SU, "np.random.uniform(meta['lower'], meta['upper'], sizes[name])",
+           "np.random.uniform(meta['lower'], meta['lower'], sizes[name])", 'C23.uniform'),
+    Mutant('uniform-yield-late', DG, "                sample.append((name, np.random.uniform(lower, upper)))\n\n            yield sample\n",
+           "                sample.append((name, np.random.uniform(lower, upper)))\n\n        yield sample\n", 'C23.uniform'),
+    Mutant('uniform-elem-zero', DG, "                lower = meta['lower']\n                if not isinstance(lower, np.ndarray):\n                    lower = lower * np.ones(size)\n\n                upper = meta['upper']\n                if not isinstance(upper, np.ndarray):\n                    upper = upper * np.ones(size)\n\n                sample",
+           "                lower = meta['lower']\n                if isinstance(lower, np.ndarray):\n                    lower = lower[0]\n\n                upper = meta['upper']\n                if not isinstance(upper, np.ndarray):\n                    upper = upper * np.ones(size)\n\n                sample", 'C23.uniform'),
+    # ---- seed
+    Mutant('seed-truthy-guard', DG, "        if self._seed is not None:\n            np.random.seed(self._seed)\n\n        for _ in range",
+           "        if self._seed:\n            np.random.seed(self._seed)\n\n        for _ in range", 'C23.seed'),
+    Mutant('seed-dropped', DG, "        if self._seed is not None:\n            np.random.seed(self._seed)\n\n        for _ in range",
+           "        for _ in range", 'C23.seed'),
+    Mutant('seed-after-first-sample', DG, "        if self._seed is not None:\n            np.random.seed(self._seed)\n\n        for _ in range(self._num_samples):\n            sample = []\n",
+           "        for _ in range(self._num_samples):\n            sample = []\n", 'C23.seed',
+           also=[(DG, "            yield sample\n", "            yield sample\n            if self._seed is not None:\n                np.random.seed(self._seed)\n")]),
+    Mutant('seed-inverted-guard', SU, "        if self._seed is not None:\n            np.random.seed(self._seed)\n",
+           "        if self._seed is None:\n            np.random.seed(self._seed)\n", 'C23.seed'),
+    Mutant('seed-sampling-truthy', SU, "        if self._seed is not None:\n", "        if self._seed:\n", 'C23.seed'),
+    Mutant('seed-lhs-not-forwarded', DG, "                        iterations=self._iterations,\n                        random_state=self._seed)",
+           "                        iterations=self._iterations)", 'C23.seed'),
+    Mutant('seed-lhs-fixed', SP, "random_state=self._seed)", "random_state=0)", 'C23.seed'),
+    Mutant('seed-fixed-value', DG, "        if self._seed is not None:\n            np.random.seed(self._seed)\n\n        for _ in range",
+           "        if self._seed is not None:\n            np.random.seed(0)\n\n        for _ in range", 'C23.seed'),
+    # ---- twins
+    Twin('twin-lhs-commuted', DG, _LHS_MAP, "val = (upper - lower) * sample + lower"),
+    Twin('twin-lhs-convex', SP, _LHS_MAP, "val = lower * (1 - sample) + upper * sample"),
+    Twin('twin-lhs-span-temp', DG, _LHS_MAP, "span = upper - lower\n                val = span * sample + lower"),
+    Twin('twin-seed-flipped-guard', DG, "        if self._seed is not None:\n            np.random.seed(self._seed)\n\n        for _ in range",
+         "        if self._seed is None:\n            pass\n        else:\n            np.random.seed(self._seed)\n\n        for _ in range"),
+    Twin('twin-seed-alias', SU, "        if self._seed is not None:\n            np.random.seed(self._seed)\n",
+         "        seed = self._seed\n        if not (seed is None):\n            np.random.seed(seed)\n"),
+    Twin('twin-uniform-temp', DG, "                sample.append((name, np.random.uniform(lower, upper)))\n",
+         "                draw = np.random.uniform(low=lower, high=upper)\n                sample.append((name, draw))\n"),
+    Twin('twin-lhs-drop-global-seed', DG, "        if self._seed is not None:\n            np.random.seed(self._seed)\n\n        size = sum(",
+         "        size = sum("),
+)
+
+
+# =========================================================================== self-test (part 3: DOEDriver)
+_SET = ("                if isinstance(dv_val, np.ndarray):\n"
+        "                    self._set_design_var(dv_name, dv_val.flatten())\n"
+        "                else:\n"
+        "                    self._set_design_var(dv_name, dv_val)\n")
+selftest(
+    'C23',
+    Mutant('apply-scalars-skipped', DD, _SET,
+           "                if isinstance(dv_val, np.ndarray):\n"
+           "                    self._set_design_var(dv_name, dv_val.flatten())\n", 'C23.apply'),
+    Mutant('apply-first-element', DD, "self._set_design_var(dv_name, dv_val.flatten())",
+           "self._set_design_var(dv_name, dv_val[0])", 'C23.apply'),
+    Mutant('apply-swallow-print', DD, "                if msg:\n                    raise ValueError(msg)\n",
+           "                if msg:\n                    print(msg)\n", 'C23.apply'),
+    Mutant('apply-swallow-except-pass', DD, "            except ValueError as err:\n                msg = \"Error assigning %s = %s: \" % (dv_name, dv_val) + str(err)\n",
+           "            except ValueError as err:\n                pass\n", 'C23.apply'),
+    Mutant('apply-inverted-flag', DD, "                if msg:\n                    raise ValueError(msg)\n",
+           "                if msg is None:\n                    raise ValueError(msg)\n", 'C23.apply'),
+    Mutant('apply-continue-on-error', DD, "            except ValueError as err:\n                msg = \"Error assigning %s = %s: \" % (dv_name, dv_val) + str(err)\n            finally:\n                if msg:\n                    raise ValueError(msg)\n",
+           "            except ValueError as err:\n                continue\n", 'C23.apply'),
+    Mutant('apply-break-after-first', DD, "            finally:\n                if msg:\n                    raise ValueError(msg)\n",
+           "            finally:\n                if msg:\n                    raise ValueError(msg)\n            break\n", 'C23.apply'),
+    Mutant('apply-after-solve', DD, "        metadata = {}\n\n        for dv_name, dv_val in case:",
+           "        metadata = {}\n        self._run_solve_nonlinear()\n\n        for dv_name, dv_val in case:", 'C23.apply'),
+    Mutant('run-skip-case', DD, "            self._run_case(case)\n            self.iter_count += 1\n",
+           "            if self.iter_count % 2 == 0:\n                self._run_case(case)\n            self.iter_count += 1\n", 'C23.apply'),
+    Mutant('partition-modulus-size', DD, "        ncolors = self._problem_comm.size // self.options['procs_per_model']\n        color = self._color\n",
+           "        ncolors = self._problem_comm.size\n        color = self._color\n", 'C23.partition'),
+    Mutant('partition-rank', DD, "        color = self._color\n\n        for i, case", "        color = self._problem_comm.rank\n\n        for i, case", 'C23.partition'),
+    Mutant('partition-not-equal', DD, "            if i % ncolors == color:", "            if i % ncolors != color:", 'C23.partition'),
+    Mutant('partition-setup-divides-differently', DD, "            ncolors = full_size // procs_per_model\n",
+           "            ncolors = full_size // procs_per_model + 1\n", 'C23.partition'),
+    Twin('twin-apply-unconditional-ravel', DD, _SET, "                self._set_design_var(dv_name, np.ravel(dv_val))\n"),
+    Twin('twin-apply-reraise-direct', DD, "            try:\n                msg = None\n" + _SET +
+         "            except ValueError as err:\n                msg = \"Error assigning %s = %s: \" % (dv_name, dv_val) + str(err)\n            finally:\n                if msg:\n                    raise ValueError(msg)\n",
+         "            try:\n" + _SET +
+         "            except ValueError as err:\n                raise ValueError(\"Error assigning %s = %s: \" % (dv_name, dv_val) + str(err))\n"),
+    Twin('twin-apply-flag-is-not-none', DD, "                if msg:\n                    raise ValueError(msg)\n",
+         "                if msg is not None:\n                    raise ValueError(msg)\n"),
+    Twin('twin-partition-inline', DD, "        ncolors = self._problem_comm.size // self.options['procs_per_model']\n        color = self._color\n\n        for i, case in enumerate(self.options['generator'](design_vars, model)):\n            if i % ncolors == color:",
+         "        nproc = self.options['procs_per_model']\n\n        for i, case in enumerate(self.options['generator'](design_vars, model)):\n            if self._color == i % (self._problem_comm.size // nproc):"),
+    Twin('twin-run-alias', DD, "        for case in case_gen(self._designvars, self._problem().model):",
+         "        model = self._problem().model\n        for case in case_gen(dv_meta, model):"),
+)
